@@ -135,6 +135,20 @@ pub fn gen_model(r: &mut Rng, small: bool) -> Model {
         })
         .collect();
     let mut signals = signals;
+    // a SIGNAL whose CODING-REF names no CODING but a SIGNAL id (itself, an earlier or a later one: chains and
+    // cycles of references). No coding is reached, so references to such a signal are unknown and skipped.
+    if nsig > 0 && r.chance(1, 5) {
+        for i in 0..nsig {
+            if r.chance(1, 2) {
+                let j = match r.below(3) {
+                    0 => i,
+                    1 => (i + 1) % nsig,
+                    _ => r.usize_below(nsig),
+                };
+                signals[i].1 = signals[j].0.clone();
+            }
+        }
+    }
     if ncod > 0 && r.chance(1, 6) {
         // a SIGNAL element that re-declares a standard signal name with some coding: references to
         // that name keep their standard meaning
@@ -158,6 +172,11 @@ pub fn gen_model(r: &mut Rng, small: bool) -> Model {
         for _ in 0..ns {
             seqs.push(s);
             s += 1 + r.below(4) as usize;
+        }
+        // numbers far apart (the order is all that matters; the gap must not)
+        if ns >= 2 && r.chance(1, 24) {
+            let last = seqs.len() - 1;
+            seqs[last] = *r.pick(&[usize::MAX, usize::MAX - 1, 1usize << 62, 1_000_000_000_000, 4_294_967_296]);
         }
         r.shuffle(&mut seqs);
         let sigs = seqs
@@ -198,6 +217,10 @@ pub fn gen_model(r: &mut Rng, small: bool) -> Model {
         for _ in 0..np {
             seqs.push(s);
             s += 1 + r.below(3) as usize;
+        }
+        if np >= 2 && r.chance(1, 24) {
+            let last = seqs.len() - 1;
+            seqs[last] = *r.pick(&[usize::MAX, usize::MAX - 1, 1usize << 62, 1_000_000_000_000, 4_294_967_296]);
         }
         r.shuffle(&mut seqs);
         let mut p: Vec<(usize, String)> = seqs.into_iter().map(|q| (q, pdus[r.usize_below(npdu)].id.clone())).collect();
